@@ -84,7 +84,7 @@ package scheduler
 // placeholder whose replacement already sits on another node, adjusted by real - placeholder), preempting resources
 // are given back for preempted ones, and every released placeholder is taken out of the placeholder counter
 //@ func (pc *PartitionContext) removeNodeAllocations(node *objects.Node) (released []*objects.Allocation, confirmed []*objects.Allocation)
-//@   props C03 C04 C06
+//@   props C03 C04 C06 C10
 //@   sweep
 //@   mode nopanic=off
 //@   at[swapdelta] call objects.Queue.TryIncAllocatedResource#1: assert arg0 == queue && alloc.placeholder && (forall t Key :: rv(arg1, t) == clamp64(rv(release.allocatedResource, t) - rv(alloc.allocatedResource, t))) && (exists t Key :: rv(arg1, t) < 0)
@@ -93,6 +93,7 @@ package scheduler
 //@   at[phcount] call scheduler.PartitionContext.decPhAllocationCount#* after: assume phcounted(alloc)
 //@   at[phcounted] append released#*: assert elem == alloc && (!alloc.placeholder || phcounted(alloc))
 //@   at[confirmed] append confirmed#1: assert elem == release && alloc.placeholder && alloc.nodeID != release.nodeID
+//@   at[repending:C10,C04,C03] call objects.Application.RemoveAllocation#1: assert arg0 == app && arg1 == allocationKey && (iter(alloc.release) != nil ==> ncalls(objects.Application.DeallocateAsk) == iter(ncalls(objects.Application.DeallocateAsk)) + 1)
 //@   at[realask:C04,C06,C03] call objects.Application.DeallocateAsk#1: assert arg0 == app && arg1 == (alloc.placeholder ? release.allocationKey : alloc.allocationKey)
 
 // ================================================================ C06 / C13: release processing
@@ -129,7 +130,7 @@ package scheduler
 // when it was found; the recovery branch and the external-placement branch book the SAME resource to queue chain,
 // node and application (which also charges the user, C03 pairing), so restart recovery rebuilds the same totals
 //@ func (pc *PartitionContext) UpdateAllocation(alloc *objects.Allocation) (requestCreated bool, allocCreated bool, err error)
-//@   props C12 C13 C03 C04 C01
+//@   props C12 C13 C03 C04 C01 C02
 //@   sweep
 //@   mode exempt=allocnonneg:alloc
 //@   mode nopanic=on
@@ -201,6 +202,9 @@ package scheduler
 //@   loop 1: each !(nodeInfo != nil && (nodeInfo.Action == 1 || nodeInfo.Action == 6)) ==> len(acceptedNodes) == iter(len(acceptedNodes)) && len(rejectedNodes) == iter(len(rejectedNodes))
 //@   at[accepted:C04] append acceptedNodes#1: assert err == nil && elem != nil && elem.NodeID == nodeInfo.NodeID
 //@   at[rejected:C04] append rejectedNodes#1: assert err != nil && elem != nil && elem.NodeID == nodeInfo.NodeID
+//@   loop 1: invariant ncalls(scheduler.ClusterContext.addNode) >= 0 && ncalls(handler.EventHandler.HandleEvent) == 0 && (ncalls(scheduler.ClusterContext.addNode) > 0 ==> len(acceptedNodes) + len(rejectedNodes) > 0)
+//@   at[answer:C04] call handler.EventHandler.HandleEvent#1: assert arg0 == cc.rmEventHandler && len(acceptedNodes) + len(rejectedNodes) > 0
+//@   ensures[answered:C04] ncalls(scheduler.ClusterContext.addNode) > 0 ==> ncalls(handler.EventHandler.HandleEvent) == 1
 //@   at[created:C04,C12] call scheduler.ClusterContext.addNode#1: assert arg1 == nodeInfo && (nodeInfo.Action == 1 || nodeInfo.Action == 6) && arg2 == (nodeInfo.Action == 1)
 //@   holds cc != nil && cc.rmEventHandler != nil && request != nil && (forall i int :: 0 <= i && i < len(request.Nodes) ==> request.Nodes[i] != nil)
 
